@@ -239,6 +239,10 @@ class CallMixin(ExecBase):
             return m(s, p, [x], {}, node)
         if x.get("ty") == "dict":
             return [("ok", p, sv_int(p.dlen(x.t)))]
+        if x.get("special") is not None and x.get("special")[0] == "set":
+            n_ = fresh_int("setlen")      # cardinality of a set built from a sequence: some non-negative number
+            p.pc.append(n_ >= 0)
+            return [("ok", p, sv_int(n_))]
         return [("ok", p, sv_int(p.length(x.t)))]
 
     def b_isinstance(s, p, args, kwargs, node):
